@@ -218,8 +218,10 @@ def file_events(path: str, tail_head: int, tail_last: int, zone_mod: int, phase:
         got = z.get_utc_offset(Instant.from_utc(2000, 1, 1, 0, 0)).seconds if z is not None else -99999
         id_ok = z is not None and z.min_offset == z.max_offset and provider[text].id == z.id
         fixed.append({"text": text, "sign": sign, "h": h, "m": m, "s": s, "got": got, "id_ok": bool(id_ok)})
-    evs.append({"op": "provider", "ids": [_b(i) for i in ids], "version_id": provider.version_id, "aliases_ok": aliases_ok,
-                "validate_ok": validate_ok, "unknown_ok": unknown_ok, "fixed": fixed})
+    # the id list is the file's, before and after any number of lookups (of ids in the file, of fixed-offset ids, of unknown ids)
+    ids_after = list(provider.ids)
+    evs.append({"op": "provider", "ids": [_b(i) for i in ids_after], "ids_unchanged": ids == ids_after and list(source.get_ids()) is not None,
+                "version_id": provider.version_id, "aliases_ok": aliases_ok, "validate_ok": validate_ok, "unknown_ok": unknown_ok, "fixed": fixed})
     return evs, raw
 
 
